@@ -12,6 +12,7 @@ from .heapmodel import HeapMixin
 from .access import AccessMixin
 from .calls import CallMixin
 from .stmt import StmtMixin, exc_is, loops_of
+from .bytesalg import BytesMixin
 from .source import SourceError
 
 
@@ -85,7 +86,7 @@ class UnitResult(object):
     self.gen_time = 0.0
 
 
-class Engine(HeapMixin, ExprMixin, AccessMixin, CallMixin, StmtMixin):
+class Engine(HeapMixin, ExprMixin, AccessMixin, CallMixin, StmtMixin, BytesMixin):
 
   def __init__(self, reg, src, feas_timeout_ms=1500):
     self.reg = reg
@@ -240,6 +241,15 @@ class Engine(HeapMixin, ExprMixin, AccessMixin, CallMixin, StmtMixin):
     entry['$alloc'] = st.alloc
     self.old_stack = [(entry, dict(st.entry_args))]
     # spec-only result placeholder not bound yet
+    for bname, bexpr in (spec.buffers or {}).items():
+      # initial (unread) content of a stream parameter, given as a byte expression over the parameters
+      self.spec_depth += 1
+      try:
+        bv = self.ev1(self.parse_spec(bexpr), st, cx)
+      finally:
+        self.spec_depth -= 1
+      target = params.get(bname) if bname in params else st.frames.get('C_' + name, {}).get(bname)
+      st.bufs[self.buf_key(target)] = {'data': list(bv.py), 'rpos': 0, 'mark': len(bv.py), 'reading': True}
     for gname, g in self.reg.globals.items():
       gv = V(parse_type(g['type']), z3.Int('G_' + gname))
       st.assume(z3.And(gv.t > 0, gv.t <= st.alloc))
